@@ -98,6 +98,50 @@ Proof. cbn. apply name_eqb_spec. reflexivity. Qed.
 Lemma pres_comp_is_refl c : pres_comp_is (POk c) c = true.
 Proof. cbn. apply comp_eqb_spec. reflexivity. Qed.
 
+(* ---------- layout-agnostic hash-input oracle ---------- *)
+Lemma is_prefixb_spec a : forall b, is_prefixb a b = true <-> exists r, b = a ++ r.
+Proof.
+  induction a as [|x a IH]; intros b; cbn [is_prefixb].
+  - split; [intros _; exists b; reflexivity|reflexivity].
+  - destruct b as [|y b].
+    + split; [discriminate|]. intros [r H]. discriminate.
+    + rewrite andb_true_iff, N.eqb_eq, IH. split.
+      * intros [-> [r ->]]. exists r. reflexivity.
+      * intros [r H]. inversion H; subst. split; [reflexivity|exists r; reflexivity].
+Qed.
+
+(* if the oracle holds for all pairs of a class of components, the concatenated streams determine the name *)
+Theorem layout_ok_names_injective (lay : comp -> bytes) (P : comp -> Prop) :
+  (forall c d, P c -> P d -> layout_pair_ok c d (lay c) (lay d) = true) ->
+  forall a b, Forall P a -> Forall P b -> concat (map lay a) = concat (map lay b) -> a = b.
+Proof.
+  intros Hok. apply prefix_free_components_injective_names.
+  - intros c d r Hc Hd H. specialize (Hok c d Hc Hd). unfold layout_pair_ok in Hok.
+    apply andb_true_iff in Hok as [_ Hok]. destruct (comp_eqb c d) eqn:E; [apply comp_eqb_spec; exact E|].
+    apply andb_true_iff in Hok as [Hok _]. apply negb_true_iff in Hok.
+    assert (Hp : is_prefixb (lay c) (lay d) = true) by (apply is_prefixb_spec; eauto). congruence.
+  - intros c Hc H. specialize (Hok c c Hc Hc). unfold layout_pair_ok in Hok. rewrite H in Hok. discriminate.
+Qed.
+
+(* the modelled layout passes the oracle *)
+Theorem model_layout_pair_ok c d : comp_wf c -> comp_wf d ->
+  layout_pair_ok c d (comp_hash_input c) (comp_hash_input d) = true.
+Proof.
+  intros Hc Hd. destruct comp_hash_input_layout_ok as [Hpf Hne]. unfold layout_pair_ok.
+  assert (N1 : forall x, comp_wf x -> negb (length (comp_hash_input x) =? 0)%nat = true).
+  { intros x Hx. pose proof (Hne x Hx). destruct (comp_hash_input x); [congruence|reflexivity]. }
+  rewrite (N1 c Hc), (N1 d Hd). cbn [andb].
+  destruct (comp_eqb c d) eqn:E.
+  - apply comp_eqb_spec in E. subst. apply bytes_eqb_spec. reflexivity.
+  - apply andb_true_iff. split; apply negb_true_iff.
+    + destruct (is_prefixb (comp_hash_input c) (comp_hash_input d)) eqn:Ep; [|reflexivity].
+      apply is_prefixb_spec in Ep as [r Hr]. pose proof (Hpf c d r Hc Hd Hr). subst.
+      rewrite (proj2 (comp_eqb_spec d d) eq_refl) in E. discriminate.
+    + destruct (is_prefixb (comp_hash_input d) (comp_hash_input c)) eqn:Ep; [|reflexivity].
+      apply is_prefixb_spec in Ep as [r Hr]. pose proof (Hpf d c r Hd Hc Hr). subst.
+      rewrite (proj2 (comp_eqb_spec c c) eq_refl) in E. discriminate.
+Qed.
+
 Theorem model_brt_ok n : name_wf n -> brt_ok n (name_from_bytes (name_bytes n)) = true.
 Proof. intros H. rewrite (name_from_bytes_enc n H). cbn. apply name_eqb_spec. reflexivity. Qed.
 
